@@ -214,15 +214,21 @@ func runCheck(id string, p plan, tier string, seed int64, scale float64, only st
 		case 0:
 		case 1:
 			regressFail++
-			r, _ := vlib.ReadReplay(f)
-			sig := ""
-			if r != nil && r.Violation != nil {
-				sig = r.Violation.Signature
+			// the saved file carries the violation as it was when the case was saved;
+			// report what the replay found now
+			sig, detail := lastReplaySig, lastReplayDetail
+			out := f
+			if r, _ := vlib.ReadReplay(f); r != nil {
+				r.Violation = &vlib.Violation{Property: id, Signature: sig, Detail: detail}
+				r.Note = "regress case " + f + " fails again"
+				b, _ := json.MarshalIndent(r, "", " ")
+				out = filepath.Join(outDir, "replays", id+"-regress-"+filepath.Base(f))
+				os.WriteFile(out, b, 0o644)
 			}
 			if e := kf.open(id, sig); e != nil {
 				knownLines = append(knownLines, fmt.Sprintf("KNOWN-FINDING: property=%s %s", id, e.What))
 			} else {
-				violations = append(violations, f)
+				violations = append(violations, out)
 			}
 		default:
 			infra = append(infra, "replay of "+f)
@@ -550,6 +556,8 @@ func readStats(path string) *vlib.Stats {
 // replay
 // ---------------------------------------------------------------------------
 
+var lastReplaySig, lastReplayDetail string
+
 func runReplay(id, file string, verbose bool) int {
 	r, err := vlib.ReadReplay(file)
 	if err != nil {
@@ -571,7 +579,15 @@ func runReplay(id, file string, verbose bool) int {
 	if verbose {
 		fmt.Print(s)
 	}
-	if strings.Contains(s, "REPLAY-VIOLATION") {
+	if i := strings.Index(s, "REPLAY-VIOLATION"); i >= 0 {
+		lines := strings.SplitN(s[i:], "\n", 3)
+		lastReplaySig, lastReplayDetail = "", ""
+		if j := strings.Index(lines[0], "signature="); j >= 0 {
+			lastReplaySig, _ = strconv.Unquote(strings.TrimSpace(lines[0][j+len("signature="):]))
+		}
+		if len(lines) > 1 {
+			lastReplayDetail = strings.TrimSpace(lines[1])
+		}
 		if verbose {
 			fmt.Printf("VIOLATION property=%s replay=%s\n", id, file)
 		}
